@@ -69,6 +69,25 @@ def wrapped(x):
     return x
 
 
+class Gauge:
+    """descriptors stacked on a functools.wraps-style decorator: the tracer records the wrapped function"""
+
+    @property
+    @deco
+    def level(self):
+        return 2
+
+    @classmethod
+    @deco
+    def build(cls, n=0):
+        return cls()
+
+    @staticmethod
+    @deco
+    def unit2():
+        return 1
+
+
 def annotated(a: int, b, c: Optional[str] = None) -> int:
     return a
 
